@@ -66,6 +66,31 @@ func C13(c *Ctx) error {
 			specs[i] = spec{gen.GenRuntimeFile(rr, i, gen.RuntimeOpts{Headers: true}), "runtime"}
 		}
 	}
+	// fixed shapes on every run: the shape zoo, several header-using services in one file, body-verb
+	// routes whose only URL-bound fields are query parameters
+	specs = append(specs,
+		spec{gen.GenShapeZoo(n), "zoo"},
+		spec{gen.GenMultiServiceFile(r.Fork("c13-multi"), n+1, gen.RuntimeOpts{Headers: true, ManyMethods: true}), "multi_service"},
+		// the same without GET/DELETE routes that combine path and query parameters: the known duplicate
+		// `const url` syntax error would otherwise be the only thing node reports for the module
+		spec{splitPQ(gen.GenMultiServiceFile(r.Fork("c13-multi2"), n+3, gen.RuntimeOpts{Headers: true, ManyMethods: true})), "multi_service_loadable"},
+		spec{gen.InteropCorpus(0), "ts_interop_corpus"},
+		spec{postQueryOnly(n + 2), "post_query_only"})
+	// whatever the plugins accept must build: the rule-breaking fragments of C12 (refused today) at
+	// every placement; a validator that stops refusing one of them must not let uncompilable code out
+	placements := []string{"nested", "other_generated_file"}
+	if c.Thorough() {
+		placements = gen.Placements
+	}
+	pi := n + 10
+	for _, rule := range gen.JSONRules {
+		for _, pl := range placements {
+			pi++
+			req, _ := gen.Place(r.Fork(fmt.Sprint("c13-inv", pi)), pi, rule, pl)
+			specs = append(specs, spec{req, "c12_fragment"})
+		}
+	}
+	n = len(specs)
 	var douts []map[string]any
 	if drv.Available() {
 		var dops []map[string]any
@@ -281,4 +306,28 @@ func onlyVet(p []string) bool {
 		}
 	}
 	return true
+}
+
+// postQueryOnly: POST / PUT routes whose request messages carry query-annotated fields and no
+// path variable, and no GET / DELETE route in the file.
+func postQueryOnly(idx int) *ir.Request {
+	pkg := "pq.v1"
+	P := "." + pkg + "."
+	f := &ir.File{Name: fmt.Sprintf("pq%d/api.proto", idx), Package: pkg, GoPackage: "example.com/gen/pq/v1;pqv1"}
+	f.Messages = []*ir.Message{
+		{Name: "CreateReq", Fields: []*ir.Field{{Name: "dry_run", Number: 1, Kind: "bool", Ann: ir.Ann{Query: &ir.Query{Name: "dry_run"}}}, {Name: "title", Number: 2, Kind: "string"}}},
+		{Name: "UpdateReq", Fields: []*ir.Field{{Name: "mask", Number: 1, Kind: "string", Ann: ir.Ann{Query: &ir.Query{Name: "mask", Required: true}}}, {Name: "amount", Number: 2, Kind: "int64"}}},
+		{Name: "Reply", Fields: []*ir.Field{{Name: "ok", Number: 1, Kind: "bool"}}},
+	}
+	f.Services = []*ir.Service{{Name: "Pq", BasePath: "/pq", Methods: []*ir.Method{
+		{Name: "Create", Input: P + "CreateReq", Output: P + "Reply", Config: &ir.HTTPConfig{Path: "/items", Method: "POST"}},
+		{Name: "Update", Input: P + "UpdateReq", Output: P + "Reply", Config: &ir.HTTPConfig{Path: "/items/update", Method: "PUT"}},
+		{Name: "Default", Input: P + "CreateReq", Output: P + "Reply"},
+	}}}
+	return &ir.Request{Files: []*ir.File{f}, Generate: []string{f.Name}}
+}
+
+func splitPQ(req *ir.Request) *ir.Request {
+	out, _ := gen.SplitPathQuery(req)
+	return out
 }
